@@ -90,6 +90,11 @@ func (r *c12run) victimSecret(initiator bool) *big.Int {
 func (r *c12run) collect() {
 	for ; r.nTLV < len(r.m.R.TLVsIn); r.nTLV++ {
 		t := r.m.R.TLVsIn[r.nTLV]
+		if t.Type == ref.TLVSMPAbort {
+			// an abort voids whatever the victim sent before it (TLVs are processed in order)
+			r.lastV = map[uint16][]*big.Int{}
+			continue
+		}
 		if t.Type >= ref.TLVSMP1 && t.Type <= ref.TLVSMP1Q && t.Type != ref.TLVSMPAbort {
 			if _, mp, err := ref.ParseSMPTLV(t); err == nil {
 				typ := t.Type
@@ -283,6 +288,10 @@ func runC12(sc *C12Script) *sim.Outcome {
 			m.fromR(m.R.Send([]byte("hi")))
 			r.settle()
 		case "vstart":
+			if r.sh.state != "e1" {
+				r.hits++
+				o.Class("start-while-in-progress")
+			}
 			q := ""
 			if st.Q {
 				q = "question?"
@@ -293,7 +302,11 @@ func runC12(sc *C12Script) *sim.Outcome {
 				r.sh = shadow{state: "e2", smp: &ref.SMP{Secret: r.victimSecret(true), Rnd: r.victimDraws(nDraw)}}
 				want := r.sh.smp.Step1()
 				r.settle()
-				if got := r.lastV[ref.TLVSMP1]; !sameInts(got, want) {
+				got := r.lastV[ref.TLVSMP1]
+				if got == nil {
+					return o.Fail("C12/restart-unanswerable", "StartAuthenticate succeeded but what the victim sent leaves the peer without a pending SMP request (an abort follows, or no message 1 was sent): the run can never complete")
+				}
+				if !sameInts(got, want) {
 					return o.Fail("C12/harness-shadow", "harness self-check: the shadow initiator does not reproduce the victim's SMP1")
 				}
 			}
@@ -314,9 +327,9 @@ func runC12(sc *C12Script) *sim.Outcome {
 				}
 				r.sh.state = "e3"
 			} else {
-				if err == nil {
-					// the library answers an unexpected call with an abort message; allowed
-				}
+				// an answer nobody asked for: the library replies with an abort message; allowed
+				r.hits++
+				o.Class("answer-unasked")
 				r.sh.state = "e1"
 			}
 			r.settle()
@@ -490,6 +503,12 @@ func runC12(sc *C12Script) *sim.Outcome {
 			}
 			r.settle()
 			r.judgeEvents(m.A.SMP[nEv:], allow, "SMP message 4")
+			if allow && !dev && !structural && sc.Equal {
+				if s, _, _, _, _ := smpFlags(m.A.SMP[nEv:]); !s {
+					return o.Fail("C12/honest-rejected", "an honest SMP4 with equal secrets did not make the victim report success; events %v", m.A.SMP[nEv:])
+				}
+				o.Class("honest-run-completed")
+			}
 			r.prover, r.pRole = nil, 0
 		}
 	}
@@ -548,7 +567,7 @@ func sameInts(a, b []*big.Int) bool {
 	return true
 }
 
-func init() { reg("C12deviant", runC12); reg("C12fields", runC12); reg("C12degenerate", runC12) }
+func init() { reg("C12deviant", runC12); reg("C12fields", runC12); reg("C12degenerate", runC12); reg("C12usercalls", runC12) }
 
 func genDStep(rt *rapid.T, kinds []string) DStep {
 	st := DStep{K: rapid.SampledFrom(kinds).Draw(rt, "k")}
@@ -687,4 +706,43 @@ func TestKnown_C12_V2GroupCheck(t *testing.T) {
 	} else {
 		fmt.Println("WITNESS-PASSES C12/v2-no-group-check")
 	}
+}
+
+// TestProp_C12_UserCalls: user calls made in SMP states that do not expect them, followed by an honest
+// run that must still succeed (equal secrets), both versions.
+func TestProp_C12_UserCalls(t *testing.T) {
+	si, sn := sim.Shard()
+	seqs := [][]string{
+		{"vstart", "vstart", "r2", "r4"},
+		{"vstart", "vstart", "vstart", "r2", "r4"},
+		{"r1", "vstart", "r2", "r4"},
+		{"r1", "vanswer", "vstart", "r2", "r4"},
+		{"vstart", "r2", "vstart", "r2", "r4"},
+		{"vstart", "vabort", "vstart", "r2", "r4"},
+		{"vstart", "vanswer", "vstart", "r2", "r4"},
+		{"r1", "vabort", "r1", "vanswer", "r3"},
+		{"vanswer", "r1", "vanswer", "r3"},
+		{"vabort", "vabort", "r1", "vanswer", "r3"},
+		{"r1", "r1", "rabort", "r1", "vanswer", "r3"},
+		{"vstart", "rabort", "vstart", "r2", "r4"},
+		{"r1", "vanswer", "vanswer", "rabort", "r1", "vanswer", "r3"},
+	}
+	idx := 0
+	for _, v := range []int{3, 2} {
+		for _, q := range []bool{false, true} {
+			for _, seq := range seqs {
+				idx++
+				if idx%sn != si {
+					continue
+				}
+				sc := &C12Script{Cfg: SessCfg{V: v, SeedA: 80, SeedB: 91, KeyA: 2, KeyB: 5}, Equal: true}
+				for _, k := range seq {
+					sc.Steps = append(sc.Steps, DStep{K: k, Q: q})
+				}
+				o := sim.Judge(t, "C12usercalls", sc)
+				_ = o
+			}
+		}
+	}
+	sim.MarkCompleted("C12usercalls", true)
 }
